@@ -13,7 +13,8 @@ VARIABLE st
 MC_Sets == [s1 |-> [keys |-> <<1, 2>>, weights |-> <<1, 1>>, threshold |-> 2, nonce |-> 0]]
 MC_Keys == [k1 |-> [chain |-> "ab", id |-> "c"],
             k2 |-> [chain |-> "a",  id |-> "bc"],
-            k3 |-> [chain |-> "",   id |-> "abc"]]     \* and an empty chain name: ("", "abc") is not ("ab", "c")
+            k3 |-> [chain |-> "",   id |-> "abc"],     \* and an empty chain name: ("", "abc") is not ("ab", "c")
+            k4 |-> [chain |-> "x",  id |-> "c"]]       \* the id of k1 on another chain: a different message (round 12, C02l)
 DeepMsgs == [m1c |-> [key |-> "k1", src |-> "sA", dest |-> "app2", ph |-> "p1"],
              m3c |-> [key |-> "k3", src |-> "sA", dest |-> "app1", ph |-> "p2"]]
 MC_Msgs0 == [m1a |-> [key |-> "k1", src |-> "sA", dest |-> "app1", ph |-> "p1"],
@@ -21,7 +22,8 @@ MC_Msgs0 == [m1a |-> [key |-> "k1", src |-> "sA", dest |-> "app1", ph |-> "p1"],
             m2a |-> [key |-> "k2", src |-> "sA", dest |-> "app1", ph |-> "p1"],
             m2b |-> [key |-> "k2", src |-> "sA", dest |-> "app1", ph |-> "p2"],
             m3a |-> [key |-> "k3", src |-> "sA", dest |-> "app2", ph |-> "p1"],
-            m3b |-> [key |-> "k3", src |-> "sB", dest |-> "app2", ph |-> "p1"]]
+            m3b |-> [key |-> "k3", src |-> "sB", dest |-> "app2", ph |-> "p1"],
+            m4a |-> [key |-> "k4", src |-> "sA", dest |-> "app1", ph |-> "p1"]]
 MC_Msgs == IF Deep THEN MC_Msgs0 @@ DeepMsgs ELSE MC_Msgs0
 
 GoodProof == [set |-> "s1", sigs |-> <<"Valid", "Valid">>]
